@@ -11,7 +11,15 @@ and boxes whose bounds lie at / around grid steps in the binary64 sense (`gen_gr
 nearest step from truncation / floor / ceiling of the box bounds.  Round 5: FLAT data sets (all points on one z / x / y, on
 a line, at one location, a single point: the header's extent has no thickness there) and boxes WITHOUT thickness on 1..3
 axes placed exactly on stored points (`gen_degenerate_box`), 2-D and 3-D; a Bounds object that cannot be built for a legal
-box is a failing input of the query (sessions included)."""
+box is a failing input of the query (sessions included).  Round 6: the hierarchy stored as a VLR in front of the points,
+as an EVLR behind them (other EVLRs around it) or loose between the chunks, the pages in ANY order inside it (root page
+first / last / in the middle, bytes that belong to no page between them); READER SESSIONS = several queries on ONE reader,
+some of them aborted (malformed page reference; a transient fault of the source - OSError / HTTP 503 - at the n-th read
+of the query: a hierarchy page or a chunk range; then the source is healthy again): every later query must give the
+answer of a fresh reader (oracle + byte equality), a fault must surface as an exception, and the records returned by
+EARLIER queries are kept alive (some overwritten by the caller) and compared again after every later query; the
+correspondence runs such sessions on the model too (`reader_session`: outcome of every query AND the cached hierarchy
+after it, CopcReader.root_page, also after an aborted query)."""
 import io
 import math
 import os
@@ -42,6 +50,10 @@ ASSUMPTIONS = [
     "http sources are served in-process by a fake requests session that answers every range request with exactly the "
     "requested bytes (laspy's HttpRangeStream, fetcher threads and both strategies are the real ones; schedules and "
     "failing requests are property C16); level ranges with a step are only checked by the oracle (the model has step 1)",
+    "transient faults of the source: the reads of a query are counted as calls of read / readinto of the file object (one per "
+    "hierarchy page fetched, then one per byte query of the grouped chunks), the n-th raises OSError once; in the model "
+    "(traverse_rd / query_rd) the fault fires before anything of that read is merged; faults of http sources (503 on the n-th "
+    "range request) are judged by the oracle only (which worker gets the failing request: C16)",
     "the chunks of the nodes a query selects do not overlap in the file (`apart`, checked on every generated file): the "
     "hypothesis under which the byte queries ascend strictly (C15_queue_order, C15_any_source)",
 ]
@@ -105,6 +117,68 @@ class PlainSource:
         self._b.close()
 
 
+class TransientFault:
+    """the n-th read operation (read / readinto) after arm(n) raises OSError, ONCE; afterwards the source is healthy again
+    (a network file system, a removable medium, an fsspec object: the caller retries or goes on with other queries)"""
+
+    def _init_fault(self):
+        self.countdown = None
+        self.fired = False
+
+    def arm(self, n):
+        self.countdown = n
+        self.fired = False
+
+    def disarm(self):
+        self.countdown = None
+
+    def _tick(self):
+        if self.countdown is not None:
+            if self.countdown <= 0:
+                self.countdown = None
+                self.fired = True
+                raise OSError(5, "c15: transient read error of the source")
+            self.countdown -= 1
+
+
+class FlakyBytesIO(io.BytesIO, TransientFault):
+    def __init__(self, raw):
+        io.BytesIO.__init__(self, raw)
+        self._init_fault()
+
+    def read(self, n=-1):
+        self._tick()
+        return io.BytesIO.read(self, n)
+
+    def readinto(self, b):
+        self._tick()
+        return io.BytesIO.readinto(self, b)
+
+
+class FlakyPlain(PlainSource, TransientFault):
+    def __init__(self, raw):
+        PlainSource.__init__(self, raw)
+        self._init_fault()
+
+    def read(self, n=-1):
+        self._tick()
+        return PlainSource.read(self, n)
+
+
+class HttpFaults(TransientFault):
+    """the same for the in-process http server: the n-th range request after arm(n) is answered 503, once"""
+
+    def __init__(self):
+        self._init_fault()
+
+    def tick(self):
+        try:
+            self._tick()
+        except OSError:
+            return True
+        return False
+
+
 # ---- an in-process HTTP server: laspy's real HttpRangeStream / HttpFetcherThread / both fetch strategies run on a fake
 # ---- `requests` session that answers a range request with exactly the requested bytes (schedules and faults: C16)
 class _FakeResponse:
@@ -122,6 +196,7 @@ class HttpWorld:
         self.files = {}
         self.log = []
         self.lock = threading.Lock()
+        self.faults = HttpFaults()
 
     def register(self, raw):
         url = f"http://c15.fake/{len(self.files)}.copc.laz"
@@ -141,6 +216,8 @@ class FakeSession:
         a, b = int(m.group(1)), int(m.group(2))
         with WORLD.lock:
             WORLD.log.append((a, b - a + 1))
+            if WORLD.faults.tick():
+                return _FakeResponse(503, b"")
         if a >= len(raw):
             return _FakeResponse(416, b"")
         return _FakeResponse(206, raw[a:b + 1])
@@ -175,6 +252,10 @@ def open_reader(raw, source="bytesio"):
         return C.CopcReader(SpySource(raw)), (lambda: None)
     if source == "plain":
         return C.CopcReader(PlainSource(raw)), (lambda: None)
+    if source == "flaky-bytesio":
+        return C.CopcReader(FlakyBytesIO(raw)), (lambda: None)
+    if source == "flaky-plain":
+        return C.CopcReader(FlakyPlain(raw)), (lambda: None)
     if source in ("path", "with-path"):     # with-path: the reader used as a context manager (`with CopcReader.open(p) as rd`)
         fd, path = tempfile.mkstemp(prefix="c15_", suffix=".copc.laz", dir="/var/tmp")
         with os.fdopen(fd, "wb") as fh:
@@ -421,7 +502,11 @@ def flat_setup(rng, geo, axes):
     return geo, steps
 
 
-def build_file(rng, malformed=None, depth=None, budget=None, geo=None, grid=None, flat=None):
+HOSTS = ["loose", "vlr", "vlr", "evlr", "evlr"]
+PAGE_ORDERS = ["shuffled", "shuffled", "root-first", "root-last", "root-middle"]
+
+
+def build_file(rng, malformed=None, depth=None, budget=None, geo=None, grid=None, flat=None, host=None, page_order=None):
     """returns dict(raw, geo, fmt, nodes={key: [tags]}, points={tag: (X,Y,Z,rec_bytes,key)}, spacing, hdr_z, label).
     flat: axes on which all the points share one coordinate (all three: every point at one location)"""
     laspy, C = _laspy()
@@ -513,10 +598,35 @@ def build_file(rng, malformed=None, depth=None, budget=None, geo=None, grid=None
     extra_pages = []
     if malformed:
         extra_pages = malformed_pages(malformed)
-    for pid in pages:
-        items.append(("page", pid, 32 * page_entries[pid] + (32 if malformed and pid == 0 else 0)))
-    for name, n_entries in extra_pages:
-        items.append(("xpage", name, 32 * n_entries))
+    page_items = [("page", pid, 32 * page_entries[pid] + (32 if malformed and pid == 0 else 0)) for pid in pages]
+    page_items += [("xpage", name, 32 * n_entries) for name, n_entries in extra_pages]
+    # where the hierarchy is stored: "loose" = pages anywhere between the chunks (only the offsets of the info VLR and of
+    # the references find them); "vlr" = ONE VLR (copc, 1000) among the header's VLRs, in front of the points; "evlr" = ONE
+    # EVLR (copc, 1000) behind the points (with or without other EVLRs around it).  Inside the (E)VLR the pages lie in ANY
+    # order: the root page first, last or in the middle - hierarchy_root_offset says where it is
+    host = host if host is not None else rng.choice(HOSTS)
+    rng.shuffle(page_items)
+    order = page_order if page_order is not None else rng.choice(PAGE_ORDERS)
+    if order != "shuffled" and len(page_items) > 1:
+        root_item = [it for it in page_items if it[:2] == ("page", 0)][0]
+        page_items.remove(root_item)
+        at = {"root-first": 0, "root-last": len(page_items), "root-middle": max(1, len(page_items) // 2)}[order]
+        page_items.insert(at, root_item)
+    root_at = [it[:2] for it in page_items].index(("page", 0))
+    root_where = "only" if len(page_items) == 1 else ("first" if root_at == 0 else ("last" if root_at == len(page_items) - 1 else "middle"))
+    hier_rel = {}
+    hier_len = 0
+    if host == "loose":
+        items += page_items
+        root_where = "anywhere"
+    else:
+        for it in page_items:
+            if rng.random() < 0.15:
+                hier_len += rng.choice([32, 8, 5])      # bytes of the payload that belong to no page
+            hier_rel[it[:2]] = hier_len
+            hier_len += it[2]
+        if rng.random() < 0.15:
+            hier_len += rng.choice([32, 4])
     rng.shuffle(items)
     # ---- header
     hdr = laspy.LasHeader(version="1.4", point_format=fmt)
@@ -527,6 +637,11 @@ def build_file(rng, malformed=None, depth=None, budget=None, geo=None, grid=None
     info_placeholder = b"\0" * 160
     hdr.vlrs.append(laspy.VLR(user_id="copc", record_id=1, description="COPC info", record_data=info_placeholder))
     hdr.vlrs.append(laspy.VLR(user_id="laszip encoded", record_id=22204, description="fake lazrs", record_data=bytes(vlr.record_data())))
+    hier_vlr = None
+    if host == "vlr":
+        placeholder = bytes(rng.randrange(256) for _ in range(hier_len))
+        hier_vlr = laspy.VLR(user_id="copc", record_id=1000, description="COPC hierarchy", record_data=placeholder)
+        hdr.vlrs.insert(rng.choice([1, 2]), hier_vlr)
     if all_pts:
         real = [[Fraction(geo["scales"][i]) * p[i] + Fraction(geo["offsets"][i]) for p in all_pts] for i in range(3)]
         mins = [float(min(r)) for r in real]
@@ -543,6 +658,10 @@ def build_file(rng, malformed=None, depth=None, budget=None, geo=None, grid=None
     tmp = io.BytesIO()
     hdr.write_to(tmp)
     start = tmp.tell()
+    hier_start = None
+    if host == "vlr":
+        hier_start = tmp.getvalue().find(placeholder)
+        assert hier_start > 0 and tmp.getvalue().count(placeholder) == 1 and hier_start + hier_len <= start
     # ---- offsets
     pos = start + rng.choice([0, 8, 13])
     page_pos = {}
@@ -559,13 +678,44 @@ def build_file(rng, malformed=None, depth=None, budget=None, geo=None, grid=None
         else:
             xpage_pos[it[1]] = (pos, it[2])
             pos += it[2]
-    total = pos + rng.choice([0, 5])
+    evlrs = []          # (position, header bytes) of the EVLRs behind the points
+    if host == "evlr":
+        pos += rng.choice([0, 0, 9])
+        first = pos
+        def evlr_head(user, rid, n, desc):
+            return struct.pack("<H16sHQ32s", 0, user, rid, n, desc)
+        if rng.random() < 0.3:      # another EVLR in front of the hierarchy
+            n = rng.choice([0, 7, 40])
+            evlrs.append((pos, evlr_head(b"c15", 7, n, b"something else")))
+            pos += 60 + n
+        evlrs.append((pos, evlr_head(b"copc", 1000, hier_len, b"COPC hierarchy")))
+        hier_start = pos + 60
+        pos = hier_start + hier_len
+        if rng.random() < 0.3:      # and / or behind it
+            n = rng.choice([0, 3, 64])
+            evlrs.append((pos, evlr_head(b"c15", 8, n, b"something else")))
+            pos += 60 + n
+        hdr.start_of_first_evlr = first
+        hdr.number_of_evlrs = len(evlrs)
+    if host != "loose":
+        for it in page_items:
+            (page_pos if it[0] == "page" else xpage_pos)[it[1]] = (hier_start + hier_rel[it[:2]], it[2])
+    total = pos + (rng.choice([0, 5]) if host != "evlr" else 0)
     buf = bytearray(rng.randrange(256) for _ in range(total))
+    payload = bytearray(rng.randrange(256) for _ in range(hier_len))     # vlr host: the pages go into the VLR's payload
+
+    def put(o, body):
+        if host == "vlr":
+            payload[o - hier_start:o - hier_start + len(body)] = body
+        else:
+            buf[o:o + len(body)] = body
     # ---- serialise
     for it in items:
         if it[0] == "chunk":
             o, s = chunk_of[it[1]]
             buf[o:o + s] = it[2]
+    for o, head in evlrs:
+        buf[o:o + 60] = head
     for pid, ks in pages.items():
         ents = [(k, chunk_of[k][0], chunk_of[k][1], len(node_pts[k])) for k in ks]
         ents += [(r[1], page_pos[cp][0], page_pos[cp][1], -1) for cp, r in refs.items() if r[0] == pid]
@@ -575,12 +725,14 @@ def build_file(rng, malformed=None, depth=None, budget=None, geo=None, grid=None
         o, s = page_pos[pid]
         body = b"".join(entry_bytes(*e) for e in ents)
         assert len(body) == s
-        buf[o:o + s] = body
+        put(o, body)
     if malformed:
         for name, body in malformed_bodies(malformed, keys, xpage_pos, page_pos).items():
             o, s = xpage_pos[name]
             assert len(body) == s, (name, len(body), s)
-            buf[o:o + s] = body
+            put(o, body)
+    if hier_vlr is not None:
+        hier_vlr.record_data = bytes(payload)
     spacing = rng.choice([geo["side"] / 4, geo["side"] / 128, 8.0, 1.0, 0.3, 10.0, 2.5])
     info = struct.pack("<dddddQQdd", geo["center"][0], geo["center"][1], geo["center"][2], geo["half"], spacing,
                        page_pos[0][0], page_pos[0][1], 0.0, float(max(1, len(all_pts))))
@@ -593,12 +745,13 @@ def build_file(rng, malformed=None, depth=None, budget=None, geo=None, grid=None
     points = {p[3]: (p[0], p[1], p[2], recs[p[3]]) for p in all_pts}
     flat_axes = [i for i in range(3) if all_pts and float(hdr.mins[i]) == float(hdr.maxs[i])]
     label = f"fmt{fmt}/{geo['mode']}/depth{depth}/nodes{len(keys)}/pages{len(pages)}/pts{len(all_pts)}" + ("/grid" if centres else "") \
-        + ("/flat-" + "".join("xyz"[i] for i in sorted(flat_steps)) if flat_steps else "") + (f"/{malformed}" if malformed else "")
+        + ("/flat-" + "".join("xyz"[i] for i in sorted(flat_steps)) if flat_steps else "") + (f"/{malformed}" if malformed else "") \
+        + f"/hier-{host}/root-page-{root_where}"
     return {"raw": bytes(buf), "geo": geo, "fmt": fmt, "nodes": node_pts, "points": points, "spacing": spacing,
             "hdr_z": (float(hdr.mins[2]), float(hdr.maxs[2])), "hdr_mins": [float(v) for v in hdr.mins],
             "hdr_maxs": [float(v) for v in hdr.maxs], "label": label, "item_size": item_size,
             "root_ref": page_pos[0], "malformed": malformed, "keys": keys, "centres": centres,
-            "flat": sorted(flat_steps), "hdr_flat": flat_axes}
+            "flat": sorted(flat_steps), "hdr_flat": flat_axes, "host": host, "root_where": root_where, "npages": len(page_items)}
 
 
 # ---- malformed hierarchies: one extra entry in the root page for a key that does not exist otherwise ------------------
@@ -1019,6 +1172,7 @@ def run_impl(reader_or_raw, q, spy=False, source="bytesio", bounds=None, level=N
                 info["header_changed"] = True
         raw = pts.array.tobytes()
         sz = pts.point_format.size
+        info["points"] = pts
         return ("ok", [raw[i * sz:(i + 1) * sz] for i in range(len(pts))], rd)
     except Watchdog:
         return ("e", "LOOPS", None)
@@ -1031,16 +1185,18 @@ def run_impl(reader_or_raw, q, spy=False, source="bytesio", bounds=None, level=N
 
 
 # ---- exact scaling for the model -----------------------------------------------------------------------
-def scaled_inputs(f, q):
-    """tokens geom, qbox, hz, qgrid, levels, csys for the model"""
+def scaled_inputs(f, q, other_boxes=()):
+    """tokens geom, qbox, hz, qgrid, levels, csys for the model; other_boxes: the boxes of the other queries of a history on
+    the same reader (one common unit 1/D for the whole history)"""
     geo = f["geo"]
     box, lv = q
     base = [Fraction(v) for v in geo["lo"]] + [Fraction(geo["side"])] + [Fraction(v) for v in f["hdr_z"]] \
         + [Fraction(v) for v in geo["offsets"]]
     far = 2 ** (max(abs(v).numerator.bit_length() - v.denominator.bit_length() for v in base + [Fraction(1)]) + 40)
     finite = list(base)
-    if box is not None:
-        finite += [Fraction(v) for v in list(box[0]) + list(box[1]) if math.isfinite(v) and abs(v) < far]
+    for bx in [box] + list(other_boxes):
+        if bx is not None:
+            finite += [Fraction(v) for v in list(bx[0]) + list(bx[1]) if math.isfinite(v) and abs(v) < far]
     D = 1
     for v in finite:
         D = max(D, v.denominator)
@@ -1340,7 +1496,12 @@ def correspond(ctx):
         "level None / int / range (also empty) / resolution at and away from powers of two; malformed: self reference, page "
         "without the key, chained reference, beyond EOF, cut entry, mutually resetting pages. Sources: BytesIO, file object "
         "without readinto, path on disk (also as a context manager), http (queue and executor strategy, 1..5 workers, in-process server). Histories: one "
-        "reader for many queries; ONE Bounds object (float64 / float32 / int64 arrays) and one level object handed to the "
+        "reader for many queries, some ABORTED by a malformed page reference or by a transient fault of the source (OSError on a "
+        "local file object / HTTP 503) at the n-th read of the query (pages, then chunk ranges), mostly repeated right away, "
+        "the records of earlier queries kept alive (a quarter of them overwritten by the caller) and compared after every "
+        "later query, every answer compared with a fresh reader's; the hierarchy stored in a VLR in front of the points / in an "
+        "EVLR behind them (other EVLRs around) / loose between the chunks, pages in any order (root page first, last, in the "
+        "middle; bytes of no page between them); ONE Bounds object (float64 / float32 / int64 arrays) and one level object handed to the "
         "queries of several files in turn, the Bounds object and the reader's header compared before / after every call. "
         "non-trivial = malformed, or the "
         "result is a proper non-empty subset of the stored points; distinct by (file bytes hash, query bit patterns)")
@@ -1381,6 +1542,9 @@ def correspond(ctx):
         ctx.count("levels:" + q[1][0])
         ctx.count("model:" + (mq[0] if mq[0] == "ok" else mq[1]))
         ctx.count("fmt%d" % f["fmt"])
+        ctx.count("hierarchy stored " + {"loose": "loose between the chunks", "vlr": "in a VLR in front of the points",
+                                         "evlr": "in an EVLR behind the points"}[f["host"]] + ", root page " + f["root_where"]
+                  + (" of several" if f["npages"] > 1 and f["host"] != "loose" else ""))
         if f.get("flat"):
             ctx.count("flat data set (one " + "/".join("xyz"[i] for i in f["flat"]) + ")" if len(f["flat"]) < 3 else "flat data set (one location)")
         if q[0] is not None:
@@ -1438,6 +1602,7 @@ def correspond(ctx):
                 else:
                     group_cmds.append(gcmd)
                     group_expect.append((f, q, other, list(WORLD.log) if other.startswith("http") else None, list(px.calls)))
+    correspond_reader_sessions(ctx, _CASES, dis)
     gouts = common.run_model(group_cmds, name=DRIVER) if group_cmds else []
     for line, (f, q, source, reads, calls) in zip(gouts, group_expect):
         ctx.traces += 1
@@ -1466,6 +1631,98 @@ def correspond(ctx):
                         "model": {"queries": queries, "table": table, "queue": queue},
                         "impl": {"reads": impl_reads, "table": impl_table, "bytes_equal": impl_bytes == want_bytes}})
     return dis
+
+
+# ---- correspondence of reader sessions: the outcome of every query AND the reader's cached hierarchy after it -----------
+def impl_reader_session(f, steps, source):
+    """-> [(outcome, cache)] per step; outcome = ('ok', records) | ('e', kind) | ('fault',) | ('fault-but', what);
+    cache = the entries of CopcReader.root_page after the query"""
+    rd, cleanup = open_reader(f["raw"], source)
+    fh = fault_handle(rd, source)
+    out = []
+    try:
+        for q, fault in steps:
+            if fault is not None:
+                fh.arm(fault)
+            try:
+                impl = run_impl(rd, q)
+            finally:
+                fired = fault is not None and fh.fired
+                fh.disarm()
+            if fired:
+                o = ("fault",) if impl == ("e", "EOther:OSError", None) else ("fault-but", impl[1] if impl[0] == "e" else f"{len(impl[1])} records")
+            elif impl[0] == "ok":
+                o = ("ok", impl[1])
+            else:
+                o = ("e", impl[1])
+            cache = sorted((k.level, k.x, k.y, k.z, e.offset, e.byte_size, e.point_count) for k, e in rd.root_page.entries.items())
+            out.append((o, cache))
+    finally:
+        cleanup()
+    return out
+
+
+def correspond_reader_sessions(ctx, cases, dis):
+    rng = ctx.rng
+    cmds, index = [], []
+    for f, qs in cases:
+        steps, _src, _scr = gen_reader_session(rng, f, qs)
+        steps = [(q, fl) for q, fl in steps if q[1][0] != "T"][:ctx.n(8, 14)]
+        if not steps:
+            continue
+        source = rng.choice(["flaky-bytesio", "flaky-plain"])
+        boxes = [q[0] for q, _fl in steps]
+        toks = []
+        for q, fl in steps:
+            geom, qbox, hz, qgrid, lvt, csys, _sc = scaled_inputs(f, q, boxes)
+            toks.append(f"{qbox}/{qgrid}/{lvt}/{'-' if fl is None else fl}")
+        tree, ptok = file_model(f)
+        cmds.append(f"rsession {tree} {geom} {hz} {ptok} {csys} {'|'.join(toks)}")
+        index.append((f, steps, source))
+    outs = common.run_model(cmds, name=DRIVER) if cmds else []
+    for line, (f, steps, source) in zip(outs, index):
+        recs = tag_records(f)
+        try:
+            impl = impl_reader_session(f, steps, source)
+        except Exception as ex:  # noqa
+            dis.append({"kind": "reader session cannot be run on the implementation", "input": rs_json(f, steps, source, ()),
+                        "model": line[:200], "impl": common.exc_kind(ex)})
+            continue
+        body = line.split(" wf=")[0]
+        parts = body.split("|")
+        ctx.count("corr reader session" + (" (malformed hierarchy)" if f["malformed"] else ""))
+        if len(parts) != len(steps):
+            dis.append({"kind": "reader session: model output", "input": rs_json(f, steps, source, ()), "model": line[:300], "impl": None})
+            continue
+        for i, (part, (o, cache)) in enumerate(zip(parts, impl)):
+            ctx.traces += 1
+            mo, mc = part.split("@")
+            if mo == "fault":
+                model_o = ("fault",)
+                ctx.count("corr reader session: query aborted by a fault of the source")
+            elif mo.startswith("ok:"):
+                model_o = ("ok", [] if mo[3:] == "-" else [recs[int(t)] for t in mo[3:].split(",")])
+            else:
+                model_o = ("e", mo[4:])
+                ctx.count("corr reader session: query aborted by " + mo[4:])
+            model_c = sorted(tuple(int(v) for v in t.split(".")) for t in mc.split(",")) if mc != "-" else []
+            if steps[i][1] is not None and model_o != ("fault",):
+                ctx.count("corr reader session: fault armed beyond the reads of the query")
+            if model_o != o:
+                dis.append({"kind": "reader session: outcome of a query" + (f" ({f['malformed']})" if f["malformed"] else ""),
+                            "input": rs_json(f, steps[:i + 1], source, ()),
+                            "model": model_o[0] + (f" {len(model_o[1])} records" if model_o[0] == "ok" else (" " + model_o[1] if model_o[0] == "e" else "")),
+                            "impl": o[0] + (f" {len(o[1])} records" if o[0] == "ok" else (" " + str(o[1]) if len(o) > 1 else ""))})
+                break
+            if model_c != cache:
+                only_m = [e for e in model_c if e not in cache]
+                only_i = [e for e in cache if e not in model_c]
+                dis.append({"kind": "reader session: the reader's cached hierarchy after a query" + (f" ({f['malformed']})" if f["malformed"] else "")
+                            + (" that was aborted" if model_o[0] != "ok" else ""),
+                            "input": rs_json(f, steps[:i + 1], source, ()),
+                            "model": {"entries": len(model_c), "only in the model": only_m[:6]},
+                            "impl": {"entries": len(cache), "only in the implementation": only_i[:6]}})
+                break
 
 
 def case_json(f, q):
@@ -1613,6 +1870,166 @@ def check_session(files, q, order, container="f64", sources=None):
             "observed": f"step {step} (file {files[order[step]]['label']}): {obs}" + (note if len(order) > 1 else "")}
 
 
+# ---- reader sessions: several queries on ONE reader; some of them are ABORTED (a malformed page reference, a transient
+# ---- I/O fault of the source while a hierarchy page or a chunk is fetched - afterwards the source is healthy again); the
+# ---- records returned by EARLIER queries are kept alive and looked at again after every later query
+RS_SOURCES = ["flaky-bytesio", "flaky-bytesio", "flaky-bytesio", "flaky-plain", "flaky-plain", "http-queue/2", "http-queue/1",
+              "http-executor/2", "with-path"]
+
+
+def fault_handle(rd, source):
+    if source.startswith("flaky"):
+        return rd.source
+    if source.startswith("http"):
+        return WORLD.faults
+    return None
+
+
+def records_of(pts):
+    raw = pts.array.tobytes()
+    sz = pts.point_format.size
+    return [raw[i * sz:(i + 1) * sz] for i in range(len(pts))]
+
+
+def run_reader_session(f, steps, source="flaky-bytesio", scribble=()):
+    """steps: [(query, fault)]; fault = None, or n: the n-th read operation / range request the query issues fails (once).
+    scribble: indices of the steps whose returned record the caller overwrites (it is the caller's record).
+    -> None, or (step index, kind, observed) of the first step where something is wrong"""
+    try:
+        rd, cleanup = open_reader(f["raw"], source)
+    except Exception as ex:  # noqa
+        return (0, "CopcReader cannot open the file", common.exc_kind(ex) + f" ({type(ex).__name__}: {ex})"[:200])
+    fh = fault_handle(rd, source)
+    kept = []
+    aborted = []
+    try:
+        for i, (q, fault) in enumerate(steps):
+            armed = fault is not None and fh is not None
+            if armed:
+                fh.arm(fault)
+            info = {}
+            try:
+                impl = run_impl(rd, q, info=info)
+            finally:
+                fired = armed and fh.fired
+                if armed:
+                    fh.disarm()
+            # the records handed out by the earlier queries are the caller's: a later query must not touch them
+            for j, qj, pj, rj in kept:
+                try:
+                    now = records_of(pj)
+                except Exception as ex:  # noqa
+                    now = [common.exc_kind(ex)]
+                if now != rj:
+                    nd = sum(1 for a, b in zip(now, rj) if a != b) + abs(len(now) - len(rj))
+                    return (i, "the record returned by an earlier query is changed by a later query on the same reader",
+                            f"query {j + 1} {q_json(qj)} returned {len(rj)} points (right at that time); after query {i + 1} "
+                            f"{q_json(q)} on the same reader {nd} of the points of that record are different "
+                            f"(now {len(now)} points)")
+            note = (f" [query {i + 1} on one reader ({source}); aborted before: "
+                    + (", ".join(f"query {a + 1} ({why})" for a, why in aborted) or "none") + "]")
+            after = (f" ({f['malformed']})" if f["malformed"] else "") + (" (after an aborted query on the same reader)" if aborted else "")
+            if fired:
+                if impl[0] == "ok":
+                    return (i, "a failed read of the source does not surface as an exception",
+                            f"read operation {fault} of the query failed (OSError / HTTP 503), the query returned {len(impl[1])} records" + note)
+                if impl[1] == "LOOPS":
+                    return (i, "query does not terminate after a failed read of the source", f"no answer within {WATCHDOG_S} s" + note)
+                aborted.append((i, f"read {fault} failed: {impl[1]}"))
+                continue
+            v = judge(f, q, impl, info)
+            if v:
+                return (i, v[0] + (" (after an aborted query on the same reader)" if aborted else ""), v[1] + note)
+            if impl[0] == "ok":
+                fresh = run_impl(f["raw"], q)
+                if fresh[0] != "ok" or fresh[1] != impl[1]:
+                    return (i, "the answer differs from the answer of a fresh reader" + after,
+                            f"reader in use: {len(impl[1])} records; fresh reader: "
+                            + (fresh[1] if fresh[0] == "e" else f"{len(fresh[1])} records"
+                               + ("" if sorted(fresh[1]) != sorted(impl[1]) else " (the same records in another order)")) + note)
+                pts = info["points"]
+                recs = impl[1]
+                if i in scribble:
+                    try:
+                        pts.array.view(np.uint8)[...] = 0x5A
+                        recs = records_of(pts)
+                    except Exception:  # noqa: a record that cannot be written to is not judged here
+                        pass
+                kept.append((i, q, pts, recs))
+            else:
+                aborted.append((i, impl[1]))
+    finally:
+        cleanup()
+    return None
+
+
+def rs_json(f, steps, source, scribble):
+    return {"reader_session": {"file": f["label"], "file_hex": f["raw"].hex(), "truth": truth_json(f), "source": source,
+                               "steps": [{"query": q_json(q), "fault": fault} for q, fault in steps],
+                               "scribble": sorted(scribble)}}
+
+
+def check_reader_session(f, steps, source, scribble=()):
+    """None or a failing-input dict, minimised to the shortest history that still shows the same kind"""
+    r = run_reader_session(f, steps, source, scribble)
+    if r is None:
+        return None
+    i, kind, obs = r
+    steps = list(steps[:i + 1])
+    scribble = {j for j in scribble if j <= i}
+    best = (steps, scribble, r)
+    alone = run_reader_session(f, steps[-1:], source, {0} if i in scribble else ())
+    if alone is not None and alone[1] == kind:
+        best = (steps[-1:], {0} if i in scribble else set(), alone)
+    else:
+        for j in range(i):
+            two = [steps[j], steps[i]]
+            sc = {n for n, idx in enumerate((j, i)) if idx in scribble}
+            r2 = run_reader_session(f, two, source, sc)
+            if r2 is not None and r2[1] == kind:
+                best = (two, sc, r2)
+                break
+    steps, scribble, (i, kind, obs) = best
+    return {"kind": kind, "input": rs_json(f, steps, source, scribble), "observed": f"step {i + 1}: {obs}"}
+
+
+def gen_reader_session(rng, f, qs):
+    """the queries of the case (and stepped level ranges) on one reader; in half of the sessions one or two queries are
+    aborted by a transient fault of the source at their n-th read (hierarchy pages first, then the chunk ranges) and are
+    mostly repeated right away; queries without a box (whose record is the decompression buffer itself) are mixed in so
+    that results of every kind are alive while later queries run"""
+    base = list(reversed(qs))
+    if not f["malformed"]:
+        if rng.random() < 0.5:
+            base += [(None, ("T", 0, 6, 2)), (None, ("T", 1, 5, 3))]
+        dmax = max(k[0] for k in f["keys"])
+        for _ in range(rng.choice([1, 2, 3])):
+            base.insert(rng.randrange(len(base) + 1), (None, rng.choice([("A",), ("I", rng.randrange(0, dmax + 1)), ("R", 0, max(1, dmax)),
+                                                                        ("S", f["spacing"] / 2)])))
+    else:
+        base += [(None, ("A",)), (None, ("A",))]
+        rng.shuffle(base)
+    # malformed hierarchies through local sources only (what a server answers to a range beyond the end of the file is its own)
+    source = rng.choice(RS_SOURCES if not f["malformed"] else ["flaky-bytesio", "flaky-plain", "with-path"])
+    steps = []
+    faulty = rng.random() < (0.5 if not f["malformed"] else 0.3)
+    nf = 0
+    for q in base:
+        if faulty and nf < 2 and rng.random() < 0.3:
+            n = rng.choice([0, 0, 1, 1, 2, 3, 5])
+            steps.append((q, n))
+            nf += 1
+            if rng.random() < 0.7:
+                steps.append((q, None))
+        else:
+            steps.append((q, None))
+    if faulty and nf == 0:
+        k = rng.randrange(len(steps))
+        steps.insert(k, ((None, ("A",)), rng.choice([0, 1, 2])))
+    scribble = {i for i in range(len(steps)) if rng.random() < 0.25}
+    return steps, source, scribble
+
+
 def search(ctx, seeds):
     laspy, C = _laspy()
     proxy()
@@ -1640,19 +2057,26 @@ def search(ctx, seeds):
             v = check_one(f, q)
             if v:
                 report(f, q, v)
-        # one reader for a whole session (the hierarchy it has loaded is kept), plus stepped ranges
+        # one reader for a whole session (the hierarchy it has loaded is kept): stepped ranges, queries ABORTED by a malformed
+        # page reference or by a transient fault of the source, earlier results kept alive (well-formed and malformed files)
+        steps, rsrc, scribble = gen_reader_session(rng, f, qs)
+        ctx.evaluations += len(steps)
+        ctx.count("reader session: " + rsrc.split("/")[0] + (" (malformed hierarchy)" if f["malformed"] else ""))
+        ctx.count("reader session: hierarchy in " + f.get("host", "?") + ", root page " + f.get("root_where", "?"))
+        nfault = sum(1 for _q, fl in steps if fl is not None)
+        if nfault:
+            ctx.count("reader session with transient faults of the source", 1)
+        try:
+            bad = check_reader_session(f, steps, rsrc, scribble)
+        except Exception as ex:  # noqa: what was found so far is kept
+            import traceback
+            ctx.notes.append("a reader session could not be judged: " + traceback.format_exc()[-600:])
+            bad = {"kind": "reader session cannot be run", "input": rs_json(f, steps, rsrc, scribble),
+                   "observed": f"{type(ex).__name__}: {ex}"[:300]}
+        if bad and bad["kind"] not in seen:
+            seen.add(bad["kind"])
+            failing.append(bad)
         if not f["malformed"]:
-            try:
-                rd = C.CopcReader(io.BytesIO(f["raw"]))
-            except Exception as ex:  # noqa
-                report(f, qs[0], ("CopcReader cannot open a well-formed file", common.exc_kind(ex)))
-                continue
-            extra = [(None, ("T", 0, 6, 2)), (None, ("T", 1, 5, 3))] if rng.random() < 0.5 else []
-            for q in list(reversed(qs)) + extra:
-                ctx.evaluations += 1
-                v = check_one(f, q, reader=rd)
-                if v:
-                    report(f, q, (v[0], v[1] + " [reader reused for several queries]"))
             # the same queries through the other kinds of source: a file object without readinto, a path on disk, and
             # http (both strategies, 1..5 workers) - any chunk order must come back right whatever fetches the chunks
             for q in qs:
@@ -1689,6 +2113,14 @@ def replay(ctx, data):
     if not inp:
         print("nothing to replay")
         return 0
+    if "reader_session" in inp:
+        rs = inp["reader_session"]
+        f = truth_from_json(rs["truth"], bytes.fromhex(rs["file_hex"]))
+        f["label"] = rs["file"]
+        steps = [(q_from_json(x["query"]), x["fault"]) for x in rs["steps"]]
+        r = run_reader_session(f, steps, rs["source"], set(rs.get("scribble", [])))
+        print("REPRODUCED:" if r else "not reproduced", r if r else "")
+        return 1 if r else 0
     if "session" in inp:
         se = inp["session"]
         files = [truth_from_json(x["truth"], bytes.fromhex(x["file_hex"])) for x in se["files"]]
